@@ -177,7 +177,8 @@ def c20_nearest_generic(ctx, n):
 def c20_apex(ctx, n):
     p, h = pybc(), _helpers()
     hs = [ctx.real(f'h{i}', -1e5, 1e5) for i in range(n)]
-    rows = [mkrow(p, time=float(i), dist_ft=float(i), height_ft=hs[i]) for i in range(n)]
+    flagged = ctx.choice('zero_down_row', n + 1) if n else 0        # which row (if any) is flagged ZERO_DOWN
+    rows = [mkrow(p, time=float(i), dist_ft=float(i), height_ft=hs[i], flag=(8 | 2 if i == flagged - 1 else 8)) for i in range(n)]
     if n:
         k = ctx.choice('peak', n)
         for i in range(n - 1):
